@@ -636,7 +636,7 @@ def tags(step):
 # --------------------------------------------------------------------------
 
 _I = st.integers
-_FB_CODE = st.tuples(_I(0, 6), _I(0, 2), _I(0, 13), st.lists(_I(0, 19), min_size=1, max_size=3))
+_FB_CODE = st.tuples(_I(0, 7), _I(0, 2), _I(0, 13), st.lists(_I(0, 19), min_size=1, max_size=3))
 _COMP_CODE = st.tuples(_I(0, 7), _I(0, 2), _I(0, 1), _I(0, 1), st.lists(_FB_CODE, max_size=2), _I(0, 4))
 _ROBOT_CODE = st.tuples(
     st.lists(_COMP_CODE, max_size=4), _I(0, 4), _I(0, 255), st.booleans(), _I(0, 5),
@@ -648,7 +648,7 @@ _FAULT_CODE = st.lists(st.tuples(_I(0, 63), _I(0, 5)), min_size=1, max_size=3)
 _WRITE_CODE = st.lists(st.tuples(_I(0, 7), _I(1, 6), _I(0, 7), _I(0, 4)), max_size=4)
 _CHUNK_CODE = st.lists(st.lists(_I(1, 4_999), max_size=3), max_size=4)
 
-FB_NAMES = ["get_a", "b", "get_c2", "getter", "get_", "target_get_count", "widget_count"]  # "get_" may occur anywhere in a name
+FB_NAMES = ["get_a", "b", "get_c2", "getter", "get_", "target_get_count", "widget_count", "_raw_counts"]  # "get_" may occur anywhere in a name
 RESET_VALUES = [0, False, "v", 2.5, None]
 WRITE_VALUES = [1, True, "w", -7.5, 42]
 
